@@ -136,11 +136,12 @@ theorem mono_setAgg (f : Forest) (n a : Nat) : Mono f (upd f n { (f n) with agg 
 theorem gptFinish_good (never d : Nat) (w w' : World) (n mn mn' : Nat) (g : Good none w)
     (h : gptFinish never d w n mn = some (w', mn')) : Good none w' := by
   simp only [gptFinish] at h
+  generalize (min (if (w.f n).valid = true then (w.f n).myTime else 0) (firstSchedAgg never w.f n)) = a at h
   split at h
   · rename_i f4 h4
     cases h
-    have m0 := mono_setAgg w.f n (min (w.f n).myTime (firstSchedAgg never w.f n))
-    generalize (upd w.f n { (w.f n) with agg := min (w.f n).myTime (firstSchedAgg never w.f n) }) = f3 at h4 m0
+    have m0 := mono_setAgg w.f n a
+    generalize (upd w.f n { (w.f n) with agg := a }) = f3 at h4 m0
     apply good_mono g
     split at h4
     · split at h4
@@ -179,7 +180,17 @@ theorem gpt_good (never d : Nat) : ∀ (k : Nat),
         split at h
         · cases h
         · rename_i w2 mn2 h2
-          exact gptFinish_good never d w2 w' n mn2 mn' (ih.2 w1 w2 n now mn mn2 g1 h2) h
+          have g2 := ih.2 w1 w2 n now mn mn2 g1 h2
+          split at h
+          · exact gptFinish_good never d w2 w' n mn2 mn' g2 h
+          · split at h
+            · cases h
+            · rename_i w3 h3
+              have g3 := callG_good never d w2 w3 n now g2 h3
+              split at h
+              · cases h
+              · rename_i w4 mn4 h4
+                exact gptFinish_good never d w4 w' n mn4 mn' (ih.2 w3 w4 n now mn2 mn4 g3 h4) h
     · intro w w' n now mn mn' g h
       simp only [gptLoop] at h
       split at h
